@@ -9,7 +9,7 @@
                (normalised) value it wrote.
    Depends on the models only (not on the proofs). *)
 From Coq Require Import Uint63.
-From Coupe Require Import Lib.Prelude Lib.Report Model.Formats.
+From Coupe Require Import Lib.Prelude Lib.Report Model.Formats Model.MeditTypes Gen.MeditGen Model.Medit.
 Open Scope N_scope.
 
 (* Bytes in case files: packed 7 per primitive 63-bit integer, little endian,
@@ -79,7 +79,29 @@ Inductive case19 :=
 | KPart (ids : list N) (wbytes : option pbytes) (rback : ires (list N))
 | KPartRead (bytes : pbytes) (r : ires (list N))
 | KWeights (a : warray) (wbytes : option pbytes) (rback : ires warray)
-| KWeightsRead (bytes : pbytes) (r : ires warray).
+| KWeightsRead (bytes : pbytes) (r : ires warray)
+(* MEDIT: written by serialize_medit_binary / display_medit_ascii, read back by Mesh::from_reader
+   (format detected); [pt]: Display text of every coordinate, [rt]: every word of the file that
+   FromStr for f64 accepts, with its value — Rust std's float printing/parsing enters as data *)
+| KMeditBin (m : mesh) (wbytes : option pbytes) (rback : ires mesh)
+| KMeditAscii (m : mesh) (pt : list (N * pbytes)) (rt : list (pbytes * N)) (wbytes : option pbytes) (rback : ires mesh)
+(* reader 0 = parse_binary, 1 = parse_ascii, 2 = from_reader *)
+| KMeditRead (reader : N) (rt : list (pbytes * N)) (bytes : pbytes) (r : ires mesh)
+| KSniff (bytes : pbytes) (bin : bool) (asc : ires bool).
+
+Definition tab_print (pt : list (N * list N)) (x : N) : list N :=
+  match find (fun e => fst e =? x) pt with Some e => snd e | None => [] end.
+Definition tab_parse (rt : list (list N * N)) (w : list N) : option N :=
+  match find (fun e => bytes_eqb (fst e) w) rt with Some e => Some (snd e) | None => None end.
+
+Definition has_ty (t : etype) (m : mesh) : bool := existsb (fun b => etype_eqb (b_ty b) t) (m_topo m).
+
+(* node numbers the writers can increment (debug profile: `node + 1` is checked) *)
+Definition nodes_below (bound : N) (m : mesh) : bool :=
+  forallb (fun b => forallb (fun n => n <? bound) (b_nodes b)) (m_topo m).
+
+Definition sniff_matches (buf : list N) (bin : bool) (asc : ires bool) : bool :=
+  Bool.eqb (test_format_binary buf) bin && read_matches Bool.eqb (test_format_ascii buf) asc.
 
 Definition eval19 (c : case19) : verdict :=
   match c with
@@ -108,6 +130,46 @@ Definition eval19 (c : case19) : verdict :=
     {| corr_ok := read_matches warray_eqb (read_weights (unpack b)) r;
        prop_ok := true;
        cls := 40 + ires_class r |}
+  | KMeditBin m wb rb =>
+    let dummy_print (_ : N) : list N := [] in
+    let dummy_parse (_ : list N) : option N := None in
+    (* inside the property: blocks of the property's list only (a Vertex block is dropped,
+       a Quadrangle block comes back as Quadrilateral: compared through the model only) *)
+    let inq := negb (has_ty Vertex m) && negb (has_ty Quadrangle m) && nodes_below (2 ^ 63 - 1) m in
+    {| corr_ok := write_matches (serialize_binary m) wb
+                  && match wb with
+                     | Some b => read_matches mesh_eqb (from_reader dummy_parse (unpack b)) rb
+                     | None => true
+                     end;
+       prop_ok := if inq then is_ok_of mesh_eqb m rb else true;
+       cls := (if inq then 50 else 60) + ires_class rb |}
+  | KMeditAscii m pt rt wb rb =>
+    let pt' := map (fun e => (fst e, unpack (snd e))) pt in
+    let rt' := map (fun e => (unpack (fst e), snd e)) rt in
+    (* inside the property: no Vertex block, and every coordinate's text parses back to the
+       same bits (Rust std guarantees it for every non-NaN value) *)
+    let floats_rt := forallb (fun e => match tab_parse rt' (snd e) with Some x => x =? fst e | None => false end) pt' in
+    let inq := negb (has_ty Vertex m) && floats_rt && nodes_below (2 ^ 64 - 1) m in
+    {| corr_ok := write_matches (serialize_ascii (tab_print pt') m) wb
+                  && match wb with
+                     | Some b => read_matches mesh_eqb (from_reader (tab_parse rt') (unpack b)) rb
+                     | None => true
+                     end;
+       prop_ok := if inq then is_ok_of mesh_eqb m rb else true;
+       cls := (if inq then 70 else 80) + ires_class rb |}
+  | KMeditRead which rt b r =>
+    let rt' := map (fun e => (unpack (fst e), snd e)) rt in
+    let s := unpack b in
+    let model := if which =? 0 then parse_binary s
+                 else if which =? 1 then parse_ascii (tab_parse rt') s
+                 else from_reader (tab_parse rt') s in
+    {| corr_ok := read_matches mesh_eqb model r;
+       prop_ok := true;
+       cls := 90 + 4 * which + ires_class r |}
+  | KSniff b bin asc =>
+    {| corr_ok := sniff_matches (unpack b) bin asc;
+       prop_ok := true;
+       cls := 110 + (if bin then 4 else 0) + match asc with IROk true => 1 | IROk false => 0 | _ => 2 end |}
   end.
 
 Definition run19 (cs : list case19) := report (map eval19 cs).
